@@ -242,7 +242,7 @@ func (x *Exec) load(st *State, a *Addr, reach Term) Val {
 			t = Select(t, *locs[i].idx2)
 		}
 		out.L[i] = x.c.Define("ld", t)
-		if l.Sort == SRef {
+		if l.isRef() {
 			x.c.Assume(Imp(reach, Op("bvult", SBool, out.L[i], st.ctr)))
 		}
 	}
